@@ -128,14 +128,14 @@ Expected(b, r) == IF PassThrough(r) THEN r ELSE Resolve(b, r)
 AllBaseIds == {"root0", "root", "file", "dir", "query", "deep"}
 AllRefClasses == {"rel", "relqf", "reldir", "embedq", "dot", "up1", "up2", "rootrel", "schemerel", "query", "empty",
                   "frag", "data", "js", "http", "https", "badesc", "ctl"}
-AllCarriers == {"a_para", "a_li", "a_wrap", "a_head", "a_figcap", "a_cell", "img_src", "img_srcset", "picture_source_srcset",
+AllCarriers == {"a_para", "a_li", "a_wrap", "a_head", "a_figcap", "a_cell", "img_src", "img_srcset", "picture_source_srcset", "picture_img",
                 "video_src", "video_poster", "source_src", "track_src", "img_table", "fig_img"}
 SrcsetCarriers == {"img_srcset", "picture_source_srcset"}
 ElementKinds == {"text", "table", "image", "figure", "video"}
 KindOf(carrier) ==
     CASE carrier \in {"a_para", "a_li", "a_wrap", "a_head"} -> "text"
       [] carrier \in {"a_cell", "img_table"} -> "table"
-      [] carrier \in {"img_src", "img_srcset", "picture_source_srcset"} -> "image"
+      [] carrier \in {"img_src", "img_srcset", "picture_source_srcset", "picture_img"} -> "image"
       [] carrier \in {"a_figcap", "fig_img"} -> "figure"
       [] OTHER -> "video"
 ASSUME /\ BaseIds \subseteq AllBaseIds /\ RefClasses \subseteq AllRefClasses /\ Carriers \subseteq AllCarriers
